@@ -28,6 +28,10 @@ CONFIGS = {
     "lowheap": dict(CONFIG_MAX_HEAPSIZE_IN_KBYTE=256),   # the idle daemon needs 192 KiB (path index)
     "smallbuf": dict(CONFIG_MAX_WRITE_BUFFER_SIZE=256, CONFIG_MAX_MESSAGE_SIZE=128),
     "localadd": dict(CONFIG_ALLOW_ADD_ONLY_FROM_LOCALHOST="true"),
+    # values nobody would pick as defaults: sub-second default deadline, fetch table that is not a power of two, few matchers,
+    # mid-sized tables (order 7: the smallest path index in which hopscotch displacement happens)
+    "odd": dict(CONFIG_ROUTED_MESSAGES_TIMEOUT="0.25", CONFIG_INITIAL_FETCH_TABLE_SIZE=3, CONFIG_MAX_NUMBERS_OF_MATCHERS_IN_FETCH=2,
+                CONFIG_ELEMENT_TABLE_ORDER=7, CONFIG_ROUTING_TABLE_ORDER=4, CONFIG_MAX_EPOLL_EVENTS=3, CONFIG_MAX_MESSAGE_SIZE=300),
 }
 
 LANES = {
